@@ -395,3 +395,106 @@ class StreamInit(SetAsyncGiven):
 
 
 ALL += [StreamInit]
+
+
+# --------------------------------------------------------------------------- percolation through a node inside a graph
+class InformLoopInGraph(SetLoopGiven):
+    """_inform_loop(l) on a node that has upstreams AND downstreams (the general percolation step): on normal exit the node and
+    every neighbour carry l; a neighbour that already carries a different loop makes the call raise -- in either direction."""
+    qual = 'Stream._inform_loop'
+    name = 'Stream._inform_loop[node inside a graph]'
+    inline = ()
+
+    def build(self, I):
+        st = self.setup(I)
+        l = VRef(z3.Const('L', sym.Obj), 'IOLoop?')
+        st.assume(l.t != NONE_O)
+        Dn = z3.Const('Dn', sym.SeqObjS)
+        st.assume(z3.Not(z3.Contains(Dn, z3.Unit(NONE_O))))
+        selfv = st.new_obj('Stream', {'upstreams': st.new_list(self.U, K_STREAM), 'loop': VRef(z3.Const('oldloop', sym.Obj), 'IOLoop?'),
+                                      'downstreams': st.new_list(Dn, K_STREAM),
+                                      '__ref__': VRef(z3.Const('self_ref', sym.Obj), 'Stream')})
+        u0, d0 = z3.Const('u0', sym.Obj), z3.Const('d0', sym.Obj)
+        st.assume(z3.Contains(self.U, z3.Unit(u0)))
+        st.assume(z3.Contains(Dn, z3.Unit(d0)))
+        st.ghost['u0'] = VRef(u0, 'Stream')
+        st.ghost['d0'] = VRef(d0, 'Stream')
+        self.declare_witness(I)
+        self.finish(I, {'self': selfv, 'loop': l})
+        return selfv, [l], {}
+
+    def summaries(self):
+        def inform(I, recv, args, kwargs):
+            return self.s_inform('Stream', 'loop', NONE_O, sym.Obj)(I, recv, args, kwargs)
+        return {'Stream._inform_loop': inform}
+
+    def loop_specs(self):
+        return {('Stream._inform_loop', 0): LoopSpec(
+                    modifies=['fieldmap:Stream.loop'],
+                    invariant=[('processed_upstreams_share_the_loop', 'implies(u0 in _P, loop_of(u0) is loop)'),
+                               ('own_loop_set', 'self.loop is loop')], props=['C19'], name='up'),
+                ('Stream._inform_loop', 1): LoopSpec(
+                    modifies=['fieldmap:Stream.loop'],
+                    invariant=[('own_loop_set', 'self.loop is loop'), ('upstreams_keep_the_loop', 'loop_of(u0) is loop'),
+                               ('processed_downstreams_share_the_loop', 'implies(d0 in _P, loop_of(d0) is loop)')],
+                    props=['C19'], name='down')}
+
+    def clauses(self):
+        return [Clause('C19.node_takes_the_loop_or_already_had_it', ['C19'], when='return', text='self.loop is loop'),
+                Clause('C19.loop_percolates_upstream', ['C19'], when='return',
+                       text='implies(old(self.loop) is None, loop_of(u0) is loop)'),
+                Clause('C19.loop_percolates_downstream_or_conflict_raises', ['C19'], when='return',
+                       text='implies(old(self.loop) is None, loop_of(d0) is loop)',
+                       note='a downstream neighbour that carries a different loop must make the call raise: a pipeline is never '
+                            'silently split across two loops'),
+                Clause('C19.conflict_raises_ValueError', ['C19'], when='raise', text='True')]
+
+
+class InformAsyncInGraph(InformLoopInGraph):
+    qual = 'Stream._inform_asynchronous'
+    name = 'Stream._inform_asynchronous[node inside a graph]'
+
+    def build(self, I):
+        st = self.setup(I)
+        a = VBool(z3.Bool('a_given'))
+        Dn = z3.Const('Dn', sym.SeqObjS)
+        selfv = st.new_obj('Stream', {'upstreams': st.new_list(self.U, K_STREAM), 'asynchronous': VElem(z3.Const('olda', sym.Elem)),
+                                      'downstreams': st.new_list(Dn, K_STREAM),
+                                      '__ref__': VRef(z3.Const('self_ref', sym.Obj), 'Stream')})
+        st.assume(z3.Or(z3.Const('olda', sym.Elem) == NONE_E, z3.Const('olda', sym.Elem) == TRUE_E, z3.Const('olda', sym.Elem) == FALSE_E))
+        u0, d0 = z3.Const('u0', sym.Obj), z3.Const('d0', sym.Obj)
+        st.assume(z3.Contains(self.U, z3.Unit(u0)))
+        st.assume(z3.Contains(Dn, z3.Unit(d0)))
+        st.ghost['u0'] = VRef(u0, 'Stream')
+        st.ghost['d0'] = VRef(d0, 'Stream')
+        self.declare_witness(I)
+        self.finish(I, {'self': selfv, 'asynchronous': a})
+        return selfv, [a], {}
+
+    def summaries(self):
+        def inform(I, recv, args, kwargs):
+            return self.s_inform('Stream', 'asynchronous', NONE_E, sym.Elem)(I, recv, args, kwargs)
+        return {'Stream._inform_asynchronous': inform}
+
+    def loop_specs(self):
+        return {('Stream._inform_asynchronous', 0): LoopSpec(
+                    modifies=['fieldmap:Stream.asynchronous'],
+                    invariant=[('processed_upstreams_share_the_mode', 'implies(u0 in _P, async_of(u0) == elem(asynchronous))'),
+                               ('own_mode_set', 'elem(self.asynchronous) == elem(asynchronous)')], props=['C19'], name='up'),
+                ('Stream._inform_asynchronous', 1): LoopSpec(
+                    modifies=['fieldmap:Stream.asynchronous'],
+                    invariant=[('own_mode_set', 'elem(self.asynchronous) == elem(asynchronous)'),
+                               ('upstreams_keep_the_mode', 'async_of(u0) == elem(asynchronous)'),
+                               ('processed_downstreams_share_the_mode', 'implies(d0 in _P, async_of(d0) == elem(asynchronous))')],
+                    props=['C19'], name='down')}
+
+    def clauses(self):
+        return [Clause('C19.node_takes_the_mode_or_already_had_it', ['C19'], when='return', text='elem(self.asynchronous) == elem(asynchronous)'),
+                Clause('C19.mode_percolates_upstream', ['C19'], when='return',
+                       text='implies(old(self.asynchronous) is None, async_of(u0) == elem(asynchronous))'),
+                Clause('C19.mode_percolates_downstream_or_conflict_raises', ['C19'], when='return',
+                       text='implies(old(self.asynchronous) is None, async_of(d0) == elem(asynchronous))'),
+                Clause('C19.conflict_raises_ValueError', ['C19'], when='raise', text='True')]
+
+
+ALL += [InformLoopInGraph, InformAsyncInGraph]
